@@ -95,7 +95,7 @@ pub fn gen_rfc2822(r: &mut Rng) -> String {
     if r.chance(1, 12) { return (*r.pick(&["garbage", "", "Tue, 1 Jul 2003", "10:52:37 +0200", "Tue, 1 Jul 2003 10:52:37", "1 Jul 2003 10:52:37 +0200 trailing", "32 Jan 2003 10:52:37 +0000", "Mon, 1 Jul 2003 10:52:37 +0200"])).to_string(); }
     // the last day chrono can represent, at an hour where a zone offset decides whether the local time still exists
     if r.chance(1, 12) { return format!("31 Dec 262142 {:02}:{:02}:{:02} {}", 8 + r.below(16), r.below(60), r.below(60), r.pick(&["+0000", "GMT", "-0100", "-0600", "-1200", "+0100", "-2359", "+1400"])); }
-    if let Some((y, m, d)) = dst_day(r) { return format!("{} {} {} {:02}:{:02}:00 +0000", d, MON[(m - 1) as usize], y, r.below(5), *r.pick(&[0u64, 30, 59])); }
+    if let Some((y, m, d)) = dst_day(r) { return format!("{} {} {} {:02}:{:02}:00 +0000", d, MON[(m - 1) as usize], y, r.below(8), *r.pick(&[0u64, 15, 29, 30, 31, 45, 59])); }
     let dow = if r.chance(1, 2) { format!("{}, ", r.pick(&["Mon", "Tue", "Wed", "Thu", "Fri", "Sat", "Sun", "mon", "TUE"])) } else { String::new() };
     let day = match r.below(6) { 0 => *r.pick(&[0u64, 29, 30, 31, 32, 1]), _ => 1 + r.below(28) };
     let mon = *r.pick(&["Jan", "Feb", "Mar", "Apr", "May", "Jun", "Jul", "Aug", "Sep", "Oct", "Nov", "Dec", "jan", "DEC", "Foo"]);
@@ -125,7 +125,7 @@ fn dst_day(r: &mut Rng) -> Option<(u64, u64, u64)> {
 const MON: [&str; 12] = ["Jan", "Feb", "Mar", "Apr", "May", "Jun", "Jul", "Aug", "Sep", "Oct", "Nov", "Dec"];
 pub fn gen_rfc3339(r: &mut Rng) -> String {
     // instants on both sides of a daylight-saving switch, several per day (what an offset cache keyed by day would confuse)
-    if let Some((y, m, d)) = dst_day(r) { return format!("{:04}-{:02}-{:02}T{:02}:{:02}:00Z", y, m, d, r.below(5), *r.pick(&[0u64, 30, 59])); }
+    if let Some((y, m, d)) = dst_day(r) { return format!("{:04}-{:02}-{:02}T{:02}:{:02}:00Z", y, m, d, r.below(8), *r.pick(&[0u64, 15, 29, 30, 31, 45, 59])); }
     if r.chance(1, 12) { return (*r.pick(&["garbage", "", "2024-02-29", "2024-02-29T00:00:00", "24-02-29T00:00:00Z", "2024-02-29T00:00:00Z trailing", "2024-02-30T00:00:00Z", "2024-02-29T00:00Z", "+12024-02-29T00:00:00Z"])).to_string(); }
     let year = match r.below(4) { 0 => *r.pick(&[0u64, 1, 1969, 1970, 9999, 1600, 2000, 2100]), _ => 1900 + r.below(200) };
     let (mo, d) = (if r.chance(1, 15) { *r.pick(&[0u64, 13]) } else { 1 + r.below(12) }, match r.below(6) { 0 => *r.pick(&[0u64, 29, 30, 31, 32]), _ => 1 + r.below(28) });
@@ -135,7 +135,23 @@ pub fn gen_rfc3339(r: &mut Rng) -> String {
         _ => format!("{}{:02}:{:02}", if r.chance(1, 2) { '+' } else { '-' }, r.below(15), *r.pick(&[0u64, 30, 45])) };
     format!("{:04}-{:02}-{:02}{}{:02}:{:02}:{:02}{}{}", year, mo, d, r.pick(&["T", "T", "T", "t", " ", "_"]), h, mi, sec, frac, off)
 }
+/// an ASCII text in which ONE window of 2-4 bytes is replaced by a single character of that many UTF-8 bytes (same byte length, same
+/// separators at the same byte offsets, but a byte offset inside the window is no character boundary), or one byte by a 2-4 byte character
+pub fn multibyte_variant(r: &mut Rng, t: &str) -> String {
+    let b = t.as_bytes(); if b.len() < 2 || !t.is_ascii() { return t.to_string(); }
+    let k = 2 + r.usize(3).min(b.len() - 2); let at = r.usize(b.len() - k + 1);
+    let c = match k { 2 => *r.pick(&['é', 'ß', 'ä', '\u{a0}']), 3 => *r.pick(&['月', '€', '日', '\u{2003}']), _ => *r.pick(&['🙄', '𝄞']) };
+    if r.chance(1, 4) { format!("{}{}{}", &t[..at], c, &t[at + 1..]) } else { format!("{}{}{}", &t[..at], c, &t[at + k..]) }
+}
 pub fn gen_args(r: &mut Rng, name: &str) -> Vec<V> {
+    if matches!(name, "string_to_date" | "string_to_time" | "string_to_datetime" | "date_from_rfc3339" | "date_from_rfc2822") && r.chance(1, 6) {
+        let t = match name { "string_to_date" => format!("{:04}-{:02}-{:02}", 1900 + r.below(200), 1 + r.below(12), 1 + r.below(28)), "string_to_time" => format!("{:02}:{:02}:{:02}", r.below(24), r.below(60), r.below(60)),
+            "string_to_datetime" => format!("{:04}-{:02}-{:02} {:02}:{:02}:{:02}", 1900 + r.below(200), 1 + r.below(12), 1 + r.below(28), r.below(24), r.below(60), r.below(60)),
+            "date_from_rfc3339" => format!("{:04}-{:02}-{:02}T{:02}:{:02}:{:02}Z", 1900 + r.below(200), 1 + r.below(12), 1 + r.below(28), r.below(24), r.below(60), r.below(60)),
+            _ => format!("{} {} {} {:02}:{:02}:{:02} +0000", 1 + r.below(28), MON[r.usize(12)], 1900 + r.below(200), r.below(24), r.below(60), r.below(60)) };
+        let v = s(&multibyte_variant(r, &t));
+        return if name.starts_with("string_to") && r.chance(1, 3) { vec![v, s(match name { "string_to_date" => "%Y-%m-%d", "string_to_time" => "%H:%M:%S", _ => "%Y-%m-%d %H:%M:%S" })] } else { vec![v] };
+    }
     // 1 in 8: arbitrary kinds and counts (error paths); otherwise arguments of the documented kinds
     if r.chance(1, 8) { let n = r.below(6); return (0..n).map(|_| if r.chance(1, 2) { gen_small_val(r) } else { gen_val(r, 2) }).collect(); }
     match name {
@@ -146,6 +162,14 @@ pub fn gen_args(r: &mut Rng, name: &str) -> Vec<V> {
         "replace" => { let h = gen_hay(r); let n = gen_needle(r, &h); if r.chance(1, 3) { vec![h, n] } else { let t = gen_needle(r, &h); vec![h, n, t] } }
         // values that are `==` across kinds (1, '1', true, 1.0, '1.0' …): the case in which a hash-based
         // implementation disagrees with equality
+        "unique" if r.chance(1, 6) => { let n = 2 + r.below(5); vec![V::Array((0..n).map(|_| match r.below(9) { 0 => num(f64::INFINITY), 1 => s("inf"), 2 => s("Infinity"), 3 => s("INF"), 4 => num(f64::NEG_INFINITY), 5 => s("-inf"), 6 => s("+inf"),
+            7 => V::Array(vec![num(f64::INFINITY)]), _ => V::Array(vec![s("infinity")]) }).collect())] }
+        // more than a thousand elements that Value::cmp does NOT order totally (numbers among numeric strings of other digit counts, NaN): a
+        // "fast path for long inputs" that sorts shows here
+        "unique" | "reverse" | "length" | "count" | "contains" | "find" | "remove" | "all" | "any" | "empty" | "str" if r.chance(1, 25) => {
+            let n = 1025 + r.usize(1500);
+            let big = V::Array((0..n).map(|_| match r.below(6) { 0 => s(*r.pick(&["95", "100", "9", "10", "1e3", "97.5"])), 1 => num(f64::NAN), 2 => V::Boolean(r.chance(1, 2)), _ => num((r.below(200) as f64) / 2.0) }).collect());
+            match name { "count" | "contains" | "find" | "remove" => vec![big, if r.chance(1, 2) { num(97.0) } else { s("100") }], _ => vec![big] } }
         "unique" if r.chance(3, 4) => { let n = 2 + r.below(7); vec![V::Array((0..n).map(|_| match r.below(9) { 0 => num(1.0), 1 => s("1"), 2 => V::Boolean(true), 3 => s("1.0"), 4 => num(0.0), 5 => s("0"), 6 => V::Boolean(false), 7 => s(""), _ => num(-0.0) }).collect())] }
         "length" | "reverse" | "unique" | "empty" | "bool" | "str" => vec![if r.chance(2, 3) { gen_hay(r) } else { gen_val(r, 2) }],
         "all" | "any" => { let n = r.below(5); let v: Vec<V> = (0..n).map(|_| match r.below(5) { 0 => V::Boolean(true), 1 => V::Boolean(false), 2 => num(1.0), 3 => s("true"), _ => gen_small_val(r) }).collect(); if r.chance(1, 2) { vec![V::Array(v)] } else { v } }
@@ -169,7 +193,8 @@ pub fn gen_args(r: &mut Rng, name: &str) -> Vec<V> {
         "split_csv" => { let h = s(*r.pick(HAYS)); if r.chance(1, 2) { vec![h] } else { vec![h, s(*r.pick(&[";", ",", "", "ab", "ä", "\"", " "]))] } }
         "abs" | "arc_tan" | "cos" | "exp" | "frac" | "ln" | "round" | "sin" | "sqrt" | "trunc" | "int_to_hex" | "even" | "odd" | "date" | "time" =>
             vec![num(if r.chance(1, 3) { (r.below(2000001) as f64) - 1000000.0 } else { gen_num(r) })],
-        "pow" => if r.chance(1, 2) { vec![num(gen_num(r))] } else { vec![num(gen_num(r)), num(gen_num(r))] },
+        "pow" => { let base = |r: &mut Rng| if r.chance(1, 2) { gen_num(r) } else { (r.below(40_000_000) as f64) / (*r.pick(&[100.0, 1000.0, 7.0, 10000.0, 3.0])) - (if r.chance(1, 4) { 1000.0 } else { 0.0 }) };
+            if r.chance(1, 2) { vec![num(base(r))] } else { vec![num(base(r)), num(if r.chance(1, 3) { 2.0 } else { gen_num(r) })] } }
         "random" => if r.chance(1, 2) { vec![] } else { vec![num(gen_num(r))] },
         "choice" => { let n = r.below(4); (0..n).map(|_| gen_small_val(r)).collect() }
         "year" | "month" | "day" | "hour" | "minute" | "second" | "millisecond" | "day_of_week" | "is_leap_year" | "date_to_rfc2822" | "date_to_rfc3339" => vec![num(gen_date_num(r))],
